@@ -4,6 +4,57 @@ C = 'flipjump/interpreter/_fjcore.c'
 RD = 'flipjump/fjm/fjm_reader.py'
 MUTANTS = [
     # ---- arming
+    M('C01', 'fast: flip-target word fetched before the IO of the op (seed C01_8)', RUN,
+      """                    flip_address = read_missing_word(word_address)
+
+            # handle IO""",
+      """                    flip_address = read_missing_word(word_address)
+            flip_word_address = flip_address >> ww
+            try:
+                flip_word_value = memory[flip_word_address]
+            except KeyError:
+                flip_word_value = read_missing_word(flip_word_address)
+
+            # handle IO""", 'C01.ORDER',
+      also=[(RUN, """            # FLIP!
+            flip_word_address = flip_address >> ww
+            try:
+                flip_word_value = memory[flip_word_address]
+            except KeyError:
+                flip_word_value = read_missing_word(flip_word_address)
+            memory[flip_word_address]""", """            # FLIP!
+            memory[flip_word_address]""")]),
+    M('C01', 'EQ fast: flip-target word INDEX computed before the IO, the word still read after it', RUN,
+      """                    flip_address = read_missing_word(word_address)
+
+            # handle IO""",
+      """                    flip_address = read_missing_word(word_address)
+            flip_word_address = flip_address >> ww
+
+            # handle IO""", None,
+      also=[(RUN, """            # FLIP!
+            flip_word_address = flip_address >> ww
+            try:""", """            # FLIP!
+            try:""")]),
+    M('C01', 'EQ reader decodes words with int.from_bytes after a whole-word length check', RD,
+      """        data = [
+            unpack(read_tag, file_data[i : i + word_bytes_size])[0]  # noqa: E203
+            for i in range(0, len(file_data), word_bytes_size)
+        ]
+""",
+      """        if len(file_data) % word_bytes_size:
+            raise FlipJumpReadFjmException('Error: the data ends inside a word.')
+        data = [
+            int.from_bytes(file_data[i : i + word_bytes_size], 'little')  # noqa: E203
+            for i in range(0, len(file_data), word_bytes_size)
+        ]
+""", None),
+    M('C01', 'reader decodes words big-endian with int.from_bytes', RD,
+      """            unpack(read_tag, file_data[i : i + word_bytes_size])[0]  # noqa: E203""",
+      """            int.from_bytes(file_data[i : i + word_bytes_size], 'big')  # noqa: E203""", 'C01.WIDTHS'),
+    M('C01', 'reader decodes words as signed with int.from_bytes', RD,
+      """            unpack(read_tag, file_data[i : i + word_bytes_size])[0]  # noqa: E203""",
+      """            int.from_bytes(file_data[i : i + word_bytes_size], 'little', signed=True)  # noqa: E203""", 'C01.WIDTHS'),
     M('C01', 'fast: jump word read before the flip', RUN,
       """            # FLIP!
             flip_word_address = flip_address >> ww
